@@ -129,7 +129,9 @@ endforeach
     'subprojects/sub2/meson.options': "option('sopt', type: 'string', value: 'sub2_sopt')\n",
 }
 OPT_CMDLINES = [[], ['-Dsopt=cli', '-Dcopt=c', '-Dbopt=true', '-Diopt=7', '-Daopt=y', '-Dfopt=enabled'], ['-Dsub:ssopt=cli_sub', '-Dsub:warning_level=3', '-Dyopt=cli_y'],
-                ['-Dbuildtype=release', '-Dsub:default_library=static', '-Dsub2:sopt=cli2', '--prefix=/opt/x', '-Dlibdir=lib64'], ['-Dsub:werror=true', '-Dwerror=false', '-Dpkg_config_path=/a:/b']]
+                ['-Dbuildtype=release', '-Dsub:default_library=static', '-Dsub2:sopt=cli2', '--prefix=/opt/x', '-Dlibdir=lib64'], ['-Dsub:werror=true', '-Dwerror=false', '-Dpkg_config_path=/a:/b'],
+                # a yielding option given its own value (it then no longer follows the parent), with and without a parent value
+                ['-Dsub:yopt=own_cli'], ['-Dsub:yopt=own_cli', '-Dyopt=cli_y']]
 
 
 def render_value(v, quote=False):
